@@ -172,7 +172,8 @@ def shards(tier, seed):
       for k in range(n + 1):
         heavy = (name not in DETERMINISTIC and k >= 3) or (name == 'dedup_random' and k >= 4)     # (slow paths: retries)
         out.append(dict(name=f'recover:{name}:{sp}:k{k}', fn='h_recover_r', params=dict(algo=name, space=sp, n=n, k=k), args=_ARGS,
-                        budget_s=(150 if heavy else 40) if quick else 300, expect_s=70 if heavy else 10, per_path_s=30))
+                        budget_s=(150 if heavy else 40) if quick else 300, expect_s=70 if heavy else 10, per_path_s=30,
+                        allow_vacuous=(sp == 'small' and k > 6)))      # (an exhaustive algorithm cannot propose more than the 6 points)
   return out
 
 
